@@ -106,7 +106,9 @@ def icao(msg: str) -> None | str:
 
 
 def typecode(msg: str) -> None | int:
-    return common.typecode(msg)
+    tc = common.typecode(msg)
+    # the Cython common module returns -1 instead of None
+    return None if tc is None or tc < 0 else tc
 
 
 def position(
